@@ -5,6 +5,7 @@
      hw <negotiated version> <first id> <wire event>... -> Client/StatusWire.v: wresults (ids derived from the order of writes);
           events Q:<exp> | W | A:<id> | N:<ver> | R:... ; answer as for h
      ts <fuel> <k> <exp> <act> <code> <desc> <fe> <pe> -> Client/StatusDriver.v: try_send fuel (k x AClosed ++ [AOutcome (send_for_outcome ...)])
+     lim <payload length>                        -> "<limit> intact|toolarge|shortened" (Client/StatusLimit.v, reply_bytes)
      xf <exp> <act>                              -> the outcome when the reply's payload does not decode (DecFail)
      dt <lo> <hi>                                -> per code: which text defaultText picks (table + index)
      h <negotiated version> <event>...           -> the exchange model (Client/StatusExchange.v, xresults): events
@@ -141,6 +142,13 @@ let () =
          (match try_send (nat_of (int_of_string fuel)) (closed (int_of_string k)) with
           | TSGaveUp -> print_endline "gaveup"
           | TSOutcome o' -> Buffer.clear buf; put_outcome o'; print_endline (Buffer.contents buf))
+       | ["lim"; len] ->
+         (* Client/StatusLimit.v: what SendFor gets for a complete reply of that payload length *)
+         let payload = [n_of_int 1; n_of_int 31] in      (* the payload's content plays no part; its announced length does *)
+         print_endline (string_of_int (int_of_n maxBufferedPayloadSz) ^ " " ^
+           (match reply_bytes maxBufferedPayloadSz maxBufferedPayloadSz (ni len) payload with
+            | DTooLarge -> "toolarge"
+            | DBytes b -> if b = payload then "intact" else "shortened"))
        | ["xf"; e; a] ->
          Buffer.clear buf; put_outcome (send_for_outcome (ni e) (ni a) (fun _ -> DecFail)); print_endline (Buffer.contents buf)
        | ["r"; e; a; lo; hi; d; f; p] ->
